@@ -110,8 +110,8 @@ class LinearTransformViews:
                             heavy = D == 3 and (name == "QuaternionRotation" or (name == "EulerRotation" and held == "parameter"))
                             yield {"D": D, "model": name, "held": held, "invert": invert, "align_corners": ac,
                                    "skip_other": bool(tier == "quick" and heavy)}
-                            if tier == "thorough" and D == 3 and held == "buffer" and not invert:
-                                yield {"D": D, "model": name, "held": held, "invert": invert, "align_corners": ac, "oriented_other": True}
+                            # (not built: 3-D with *two* freely oriented grids - the conjugation by two symbolic rotations does not
+                            # normalise within 25 minutes per case even for a translation; the other grid is axis-aligned in 3-D)
 
     def run(self, case, K):
         from deepali.core.grid import Axes
